@@ -867,7 +867,28 @@ def optimize_targets():
                   hooks=[hooks.param_hook(), init_list_hook])
     opt = Fn('tuner_optimize', 'src/tuner.cpp', 'optimize', flt='tuner_t::optimize', **common)
     dop = Fn('tuner_do_optimize', 'src/tuner/local.cpp', 'do_optimize', flt='local_search_tuner_t::do_optimize', **common)
-    return [Target('optimize', [opt], 'specs/C13/optimize.h', replace=['tuner_evaluate', 'tuner_local_search', 'tuner_do_optimize'],
+    # the surrogate tuner: same protocol, numerics opaque (nondeterministic)
+    OPQ = r'unique_ptr<|^nano::r(loss|solver)_t$|factory_t<|quadratic_surrogate|^nano::solver_state_t$|^nano::vector_t$|tensor_vector_storage_t, double, 1>$|^nano::loss_t$|^nano::solver_t$'
+    stypes = [(r'__normal_iterator<|::(const_)?iterator$', 'struct nv_steps_iter'), (OPQ, 'struct nv_opaque'),
+              (r'allocator<nano::param_space_t>.*value_type', 'struct nv_spaces')] + types
+    scalls = calls + [(r'^all\|', 'nv_opaque_any()'), (r'^operator->\|.*unique_ptr', '(&{0})'), (r'^operator\*\|.*unique_ptr', '{0}'),
+                      (r'^ctor\|nano::(tensor2d_t|tensor1d_t|quadratic_surrogate\w*|tensor_t<nano::tensor_vector_storage_t, double, [12]>)\|', '@nondet'),
+                      (r'^ctor\|nano::(indices_t|tensor_t<nano::tensor_vector_storage_t, long, 1>)\|void \((const )?(long|nano::tensor_size_t)', 'nv_igrid_any()'),
+                      (r'^operator=\|.*tensor_t<', '@drop'),
+                      (r'^operator\(\)\|.*\|.*tensor_vector_storage_t, double, 1', '(*nv_scratch_double({1}))'),
+                      (r'^operator\(\)\|.*\|.*tensor_vector_storage_t, long, 1', '(*nv_scratch_long())'),
+                      (r'^operator\[\]\|.*std::vector<nano::param_space_t', '(nv_scratch_space)'),
+                      (r'^operator!=\|.*__normal_iterator', '({0}.pos != {1}.pos)'), (r'^operator\+\+\|.*__normal_iterator', '(++{0}.pos)'),
+                      (r'^operator\*\|.*__normal_iterator', '(*nv_steps_iter_arrow({0}))')]
+    smembers = members + [(r'^get\|.*factory_t', 'nv_opaque_any()'), (r'^minimize\|', 'nv_opaque_any()'), (r'^valid\|.*solver_state_t', '@nondet'),
+                          (r'^x\|.*solver_state_t', '(*{self})'), (r'^size\|.*(vector_t|tensor_vector_storage_t, double, 1|tensor_base_t<double, 1)', '({self}->n)'),
+                          (r'^size\|.*param_space_t', '((uint64_t)({self}->n))'), (r'^end\|.*tuner_step_t', 'nv_steps_end({self})'),
+                          (r'^closest_grid_point_from_surrogate\|', '@nondet')]
+    sur = Fn('tuner_do_optimize_sur', 'src/tuner/surrogate.cpp', 'do_optimize', flt='surrogate_tuner_t::do_optimize',
+             self_struct='struct nv_tuner', types=[(r'^nano::surrogate_tuner_t$', 'struct nv_tuner')] + stypes, calls=scalls, members=smembers,
+             hooks=[hooks.param_hook(), init_list_hook, lambda_hook])
+    return [Target('do_optimize_surrogate', [sur], 'specs/C13/opt_common.h', replace=['tuner_evaluate', 'tuner_local_search'], cbmc_flags=CADICAL),
+            Target('optimize', [opt], 'specs/C13/optimize.h', replace=['tuner_evaluate', 'tuner_local_search', 'tuner_do_optimize'],
                    cbmc_flags=CADICAL),
             Target('do_optimize', [dop], 'specs/C13/opt_common.h', replace=['tuner_evaluate', 'tuner_local_search'], cbmc_flags=CADICAL)]
 
